@@ -239,14 +239,15 @@ def correspondence(ctx):
         keys_calls += len(hits["keys"])
         if "NOT-MODELLED" in got or "NO-ANSWER" in got:
             c.count("model:not-modelled-or-diverged")
-        lured = [m for m in hits.get("new_modules", []) if m in hw.CANARY_MODULES or m.split(".")[0] in hw.LURE_MODULES]
+        lured = [m for m in hits.get("new_modules", []) if m in hw.CANARY_MODULES or m.split(".")[0] in hw.LURE_MODULES
+                 or m.startswith("concurrent.futures.")]
         if cfg == "default" and (hits["imported"] or hits["imports"] or hits["pickle"] or hits["denied_attr"]
-                                 or hits["denied_call"] or hits["keys"] or lured
+                                 or hits["denied_call"] or hits["keys"] or lured or hits["module_hooks"]
                                  or hw.illegitimate_writes(hits["state_writes"])):
             # the canaries are independent of the recorder: under the default configuration none may ever be hit
             c.disagreements.append(dict(
                 case=dict(kind="history", seed=ctx.seed, index=i, config=cfg, sent=desc), first_difference=-1,
-                impl=("canaries hit: imported=%r import-calls=%r pickle=%r denied-attr=%r denied-call=%r keys=%r modules=%r "
+                impl=("canaries hit: module-hooks=%r " % (hits["module_hooks"][:2],) + "imported=%r import-calls=%r pickle=%r denied-attr=%r denied-call=%r keys=%r modules=%r "
                       "state-writes=%r" % (hits["imported"][:2], hits["imports"][:2], hits["pickle"][:2], hits["denied_attr"][:2],
                                            hits["denied_call"][:2], hits["keys"][:2], lured[:3],
                                            hw.illegitimate_writes(hits["state_writes"])[:2]))[:400],
@@ -490,7 +491,10 @@ def oracle_session(seed, index, n_bursts=None):
                 problems.append("pickle was used: %r" % (rt.PICKLE_LOG[:3],))
             if rt.IMPORT_LOG or hw.IMPORTED:
                 problems.append("an import was attempted: %r %r" % (rt.IMPORT_LOG[:3], hw.IMPORTED[:3]))
-            new = [m for m in set(sys.modules) - mods_before if m in hw.CANARY_MODULES or m in named]
+            if hw.HITS.module_hooks:
+                problems.append("a module-level __getattr__ hook ran with a peer-chosen name: %r" % (hw.HITS.module_hooks[:3],))
+            new = [m for m in set(sys.modules) - mods_before
+                   if m in hw.CANARY_MODULES or m in named or any(m.startswith(n + ".") for n in named)]
             if new:
                 problems.append("the process imported %r, named only by the peer" % sorted(new))
     finally:
